@@ -96,6 +96,7 @@ Fixpoint hbuild (r : raw) : option hfn :=
   | ROp1 op x => match hbuild x, head_create_gen op 1 with Some bx, Some (_, e) => Some (denote nat ini fin e (HConst nat false) bx 0) | _, _ => None end
   | ROp2 op x y => match hbuild x, hbuild y, head_create_gen op 2 with Some bx, Some by_, Some (_, e) => Some (denote nat ini fin e bx by_ 0) | _, _, _ => None end
   | ROpN op n y => match hbuild y, head_create_gen op 2 with Some by_, Some (_, e) => Some (denote nat ini fin e (HConst nat false) by_ n) | _, _ => None end
+  | RDel _ _ _ => None                                  (* no dynamic formulas in rule heads *)
   end.
 (* several elements of one head theory atom: their disjunction, folded from the left *)
 Definition helems (l : list hfn) : option hfn := match l with [] => None | x :: r => Some (fold_left (HOr nat) r x) end.
